@@ -375,6 +375,18 @@ pub fn flow(o: &FlowOpts, rng: &mut Rng, arts: &mut Vec<Art>) -> Result<Value, S
         // NonRevocProofXList::from_list takes the crate's scalar type
         let x = NonRevocProofXList::from_list(&xs);
         put!(arts, "NonRevocProofXList", tag("m2_none"), &x);
+        // ... and one that carries the legacy field (older provers wrote it): it must survive every form
+        let mut xj = jv(&x);
+        xj["m2"] = json!(vf::GroupOrderElement::from_bytes(&[77u8, 3, 9]).map_err(es)?.to_string().map_err(es)?);
+        let x2: NonRevocProofXList = from_jv(&xj)?;
+        put!(arts, "NonRevocProofXList", tag("m2_some"), &x2);
+        // the same inside a whole proof (legacy layout of the non-revocation part)
+        let mut pj = jv(&proof);
+        if let Some(xl) = pj.pointer_mut("/proofs/0/non_revoc_proof/x_list").and_then(|v| v.as_object_mut()) {
+            xl.insert("m2".to_string(), xj["m2"].clone());
+            let p2: Proof = from_jv(&pj)?;
+            put!(arts, "Proof", tag("legacy_x_list_m2"), &p2);
+        }
     }
     scen["signature"] = jv(&sig);
     scen["proof"] = jv(&proof);
